@@ -496,7 +496,8 @@ var (
 		{A: "database.(*Interface).MakeSecret", B: "database.(*Interface).SetAbsoluteExpiry", Rename: map[string]string{"Meta.MakeSecret": "Meta.SetAbsoluteExpiry"}, Why: "attribute setters"},
 	}
 	sibDSD   = []siblingPair{{A: "formats/dsd.LoadFromHTTPRequest", B: "formats/dsd.LoadFromHTTPResponse", Rename: map[string]string{"http.Request": "http.Response"}, Why: "request / response"}}
-	sibAuth  = []siblingPair{{A: "api.authBearer", B: "api.authBasic", Rename: map[string]string{"Bearer realm": "Basic realm"}, Why: "auth endpoints"}}
+	sibAuth  = []siblingPair{{A: "api.authBearer", B: "api.authBasic", Rename: map[string]string{"Bearer realm": "Basic realm"}, Why: "auth endpoints"},
+		{A: "api.(*endpointHandler).ReadPermission", B: "api.(*endpointHandler).WritePermission", Rename: map[string]string{"Read": "Write"}, Why: "the endpoint handler answers each method class with the endpoint's own declaration"}}
 	sibQuery = []siblingPair{{A: "database/query.(*andCond).check", B: "database/query.(*orCond).check", Rename: map[string]string{"andCond": "orCond"}, Why: "and / or"}}
 	sibRecord = []siblingPair{{A: "database/record.(*Base).MarshalRecord", B: "database/record.(*Wrapper).MarshalRecord", Rename: map[string]string{"Base.Marshal": "Wrapper.Marshal"}, Why: "typed / wrapped record; a typed record is serialised as JSON, a wrapper in its own format",
 		Allow: []string{"call database/record.Wrapper.Marshal("}}}
